@@ -26,9 +26,9 @@ SCOPES: list[tuple[str, list[str]]] = [
     ('runners.process.ProcessRunner._subprocess_func', ['C16', 'C02', 'C19', 'C13']),
     ('runners.process.ProcessRunner.remove_results', ['C17']),
     ('runners.serial.SerialRunner.remove_results', ['C17']),
-    ('runners.process.ProcessRunner.', ['C01', 'C02', 'C10', 'C11', 'C16', 'C17', 'C19']),
+    ('runners.process.ProcessRunner.', ['C01', 'C02', 'C10', 'C11', 'C14', 'C16', 'C17', 'C19']),
     ('runners.process.split_done_futures', ['C01', 'C10', 'C11']),
-    ('runners.serial.SerialRunner.', ['C01', 'C02', 'C05', 'C10', 'C11', 'C17']),
+    ('runners.serial.SerialRunner.', ['C01', 'C02', 'C05', 'C10', 'C11', 'C14', 'C17']),
     ('runners.process.ForkProcessRunner.', ['C01', 'C02', 'C16', 'C17']),
     ('runners.process.SpawnProcessRunner.', ['C01', 'C02', 'C16', 'C17']),
     ('runners.base.run_or_load_task', ['C01', 'C02', 'C03', 'C06', 'C08', 'C10', 'C12', 'C16']),
@@ -870,3 +870,39 @@ def cache_key_not_identity(ctx: Ctx):
                          f'`{src(p)[:70]}` uses a cache key as {how}: all tasks of a cache=None type share the key \'null\' (they would be merged) and '
                          'equal tasks may have different keys (they would be split)', construct=f'cache_key:{how}')
     yield ctx.ob('SWEEP.CACHE-KEY-NOT-IDENTITY', True, None, None, f'{seen} cache-key reads outside cache/storage scanned, {n} identity uses', construct='scan', path='labtech/')
+
+
+@rule('SWEEP.YIELD-OUTSIDE-CATCH-ALL', _ALL_SCOPED)
+def yield_outside_catch_all(ctx: Ctx):
+    """A generator never yields from inside a `try` whose handler catches everything without re-raising (bare `except`,
+    `except BaseException`): closing the generator - which the consumer does implicitly when it is interrupted or leaves its
+    loop early - raises GeneratorExit at that yield; a handler that swallows it and yields again turns the caller's
+    KeyboardInterrupt into `RuntimeError: generator ignored GeneratorExit`."""
+    from ..cfg import handler_is_catch_all
+    n = 0
+    for fn in ctx.P.all_functions():
+        if ctx.pid is not None and ctx.pid not in scope_of(fn):
+            continue
+        ys = [y for y in walk_local_nodes(fn.node) if isinstance(y, (ast.Yield, ast.YieldFrom))]
+        if not ys:
+            continue
+        for t in [t for t in walk_local_nodes(fn.node) if isinstance(t, ast.Try)]:
+            inside = [y for y in ys if any(x is y for b in t.body for x in ast.walk(b))]
+            if not inside:
+                continue
+            for h in t.handlers:
+                if not handler_is_catch_all(h):
+                    continue
+                reraises = h.body and isinstance(h.body[-1], ast.Raise) and h.body[-1].exc is None
+                first_guard = h.body and isinstance(h.body[0], ast.If) and any(isinstance(x, ast.Raise) for x in ast.walk(h.body[0])) \
+                    and 'GeneratorExit' in src(h.body[0].test)
+                # an earlier clause that lets GeneratorExit (or KeyboardInterrupt and GeneratorExit) through
+                earlier = t.handlers[:t.handlers.index(h)]
+                passes = any('GeneratorExit' in src(e.type) and e.body and isinstance(e.body[-1], ast.Raise) for e in earlier if e.type is not None)
+                if reraises or first_guard or passes:
+                    continue
+                n += 1
+                yield ctx.ob('SWEEP.YIELD-OUTSIDE-CATCH-ALL', False, fn, inside[0], f'yield in {fn.short} not covered by a swallowing catch-all',
+                             f'`{src(inside[0])[:40]}` sits inside a try whose `except {src(h.type) if h.type else ""}` swallows GeneratorExit: when the consumer '
+                             'is interrupted the generator cannot be closed and a RuntimeError replaces the KeyboardInterrupt')
+    yield ctx.ob('SWEEP.YIELD-OUTSIDE-CATCH-ALL', True, None, None, f'generators scanned, {n} yields under a swallowing catch-all', construct='scan', path='labtech/')
